@@ -66,6 +66,25 @@ def uninstall_all():
         setattr(mod, k, orig)
 
 
+def _untimed(fn):
+    """the CPU guard around a library call (ITIMER_VIRTUAL, see vt.rec.cpu_guard) must measure the LIBRARY, not the monitor: the
+    timer is paused while a condition / snapshot function of ours runs (their cost grows with the size of the operands)"""
+    import signal
+
+    @functools.wraps(fn)
+    def w(*args, **kwargs):
+        try:
+            remaining, _ = signal.setitimer(signal.ITIMER_VIRTUAL, 0)
+        except Exception:
+            remaining = 0
+        try:
+            return fn(*args, **kwargs)
+        finally:
+            if remaining > 0:
+                signal.setitimer(signal.ITIMER_VIRTUAL, remaining)
+    return w
+
+
 def contract(orig, post=None, snapshot=None, on_raise=None, pre=None):
     """post(<args by name>, result[, OLD]) -> records, returns True
     snapshot(<args by name>) -> value available as OLD.pre
@@ -73,6 +92,9 @@ def contract(orig, post=None, snapshot=None, on_raise=None, pre=None):
     pre(args, kwargs) -> called before (plain hook, e.g. to start a step budget)"""
     f = orig
     if post is not None:
+        post = _untimed(post)
+        if snapshot is not None:
+            snapshot = _untimed(snapshot)
         if HAVE_ICONTRACT:
             f = icontract.ensure(post, error=PostBroken)(f)
             if snapshot is not None:
